@@ -975,6 +975,7 @@ def c10s_gen(ctx, intensive=False):
     fixed = [
         'O W:1:5 W:1:0 F:1:3,0,4 W:1:2 X:1', 'O F:1:0', 'O F:1:0,0,5', 'O F:1:7,0 B:1:100:50 B:1:0:500 Z',
         'O W:1:1 F:1:1,1,0,1 F:1:0 F:1:2 X:1 W:1:3', 'O O F:2:5,0 F:1:0,5 W:2:9 X:2 X:2 Z',
+        'O W:1:1000 W:1:700 X:1', 'O O W:2:50000 W:1:3 W:2:1325 X:2',
     ]
     k = 0
     for method in range(4):
@@ -1477,6 +1478,12 @@ def c13_send_numbering(ctx, verdict):
         if io is None:
             continue
         msg = c13s_oracle(line, meta, io)
+        if not msg:
+            # "data frames carry the written bytes in the order the writes were accepted": the content and
+            # reuse clauses of the send-path oracle belong to C13 as well
+            m2 = c10s_oracle(line, meta, io)
+            if m2 and ('records on the connection carry' in m2 or 'used twice' in m2):
+                msg = m2
         if msg:
             fails.append((len(line), cid, line, meta, io, msg))
     for _, cid, line, meta, io, msg in sorted(fails)[:1]:
@@ -1487,7 +1494,7 @@ def c13_send_numbering(ctx, verdict):
                                         'per operation: <n>:<err>;<bytes written>:<record header ok>:<stream>.<seq>.<closing>.<payload> ...', io],
                                     how='python3 tools/check.py C13 --replay <this file>'))
     verdict.cov['send_path_numbering'] = dict(cases=len(cases), ran=len(impl), oracle_failures=len(fails), go_seconds=round(dt, 1),
-                                              rule='the send-path cases of C10 (Write/ReadFrom incl. empty reads/obfuscateAndSend error branches/Close): per stream the frames on the wire are numbered 0,1,2,.. in emission order')
+                                              rule='the send-path cases of C10 (Write incl. writes split into 2..152 frames/ReadFrom incl. empty reads/obfuscateAndSend error branches/Close): per stream the frames on the wire are numbered 0,1,2,.. in emission order, no (stream, number) pair twice, and the data frames in that order carry exactly the written bytes')
     return broken
 
 
@@ -1496,6 +1503,10 @@ def c13s_replay(ctx, r):
     io = impl.get(r['case'].split()[0]) or ''
     print('case:          ', r['case']); print('implementation:', io)
     msg = c13s_oracle(r['case'], r['meta'], io) if io else 'driver failed ' + log[-400:]
+    if not msg:
+        m2 = c10s_oracle(r['case'], r['meta'], io)
+        if m2 and ('records on the connection carry' in m2 or 'used twice' in m2):
+            msg = m2
     print('oracle:', msg)
     return 1 if msg else 0
 
